@@ -242,14 +242,27 @@ class CWLEmptyScatterConditionalStep(CWLBaseConditionalStep):
         row: MutableMapping[str, Any],
         loading_context: DatabaseLoadingContext,
     ) -> Self:
-        return cls(
+        params = row["params"]
+        step = cls(
             name=row["name"],
             workflow=cast(
                 CWLWorkflow,
                 await loading_context.load_workflow(row["workflow"]),
             ),
-            scatter_method=row["params"]["scatter_method"],
+            scatter_method=params["scatter_method"],
         )
+        for k, port in zip(
+            params["skip_ports"].keys(),
+            await asyncio.gather(
+                *(
+                    asyncio.create_task(loading_context.load_port(port_id))
+                    for port_id in params["skip_ports"].values()
+                )
+            ),
+            strict=True,
+        ):
+            step.add_skip_port(k, port)
+        return step
 
     async def _on_true(self, inputs: MutableMapping[str, Token]) -> None:
         # Propagate output tokens
